@@ -442,15 +442,26 @@ func Analyze(d Def) Analysis {
 				sort.Strings(fs)
 				at("explicit-false="+strings.Join(fs, "+"), "falseopt", false)
 			}
-			// the documented stream/option rules, stated on presence of options
+			// the documented stream/option rules, stated on presence of options. An option that is
+			// written out as "= false" is present and not set at the same time; what the required
+			// option means then is not documented, so the rule yields no "illegal" (the definition
+			// carries the feature explicit-false and is unspecified)
+			writtenFalse := func(opt string) bool {
+				for _, f := range m.False {
+					if f == opt {
+						return true
+					}
+				}
+				return false
+			}
 			if m.Async && !m.Quorumcall {
-				at("async-without-quorumcall", "async", true)
+				at("async-without-quorumcall", "async", !writtenFalse("quorumcall"))
 			}
 			if m.ClientStream && !m.Multicast {
-				at("client-stream-without-multicast", "clientstream", true)
+				at("client-stream-without-multicast", "clientstream", !writtenFalse("multicast"))
 			}
 			if m.ServerStream && !m.Correctable {
-				at("server-stream-without-correctable", "serverstream", true)
+				at("server-stream-without-correctable", "serverstream", !writtenFalse("correctable"))
 			}
 			if m.Correctable && m.ClientStream {
 				at("correctable-client-stream", "clientstream", true)
